@@ -389,32 +389,33 @@ def evaluate__lang(self: XPathFunction, context: ta.ContextType = None) -> bool:
     elif context is None:
         raise self.missing_context()
 
-    if not isinstance(context.item, EtreeElementNode):
+    # The language of a node is the xml:lang of the node itself or of its
+    # nearest ancestor element that has the attribute (for every node kind).
+    if not isinstance(context.item, XPathNode):
         return False
+
+    node = context.item
+    if not isinstance(node, EtreeElementNode):
+        node = node.parent
+
+    while node is not None:
+        if isinstance(node, EtreeElementNode) and XML_LANG in node.value.attrib:
+            break
+        node = node.parent
     else:
-        try:
-            attr = context.item.value.attrib[XML_LANG]
-        except KeyError:
-            for e in context.iter_ancestors():
-                if isinstance(e, EtreeElementNode) and XML_LANG in e.value.attrib:
-                    lang = e.value.attrib[XML_LANG]
-                    if not isinstance(lang, str):
-                        return False
-                    break
-            else:
-                return False
-        else:
-            if not isinstance(attr, str):
-                return False
-            lang = attr.strip()
+        return False
 
-        if '-' in lang:
-            lang, _ = lang.split('-')
+    lang = node.value.attrib[XML_LANG]
+    if not isinstance(lang, str):
+        return False
 
-        value = self[0].evaluate()
-        if not isinstance(value, str):
-            return False
-        return lang.lower() == value.lower()
+    value = self[0].evaluate()
+    if not isinstance(value, str):
+        return False
+
+    lang = lang.strip().lower()
+    value = value.strip().lower()
+    return lang == value or lang.startswith(value + '-')
 
 
 ###
